@@ -158,6 +158,7 @@ claim("C16",
 claim("C19",
       "[full over R, for ANY coefficients] authalic_odd, authalic_fixes_equator, authalic_fixes_poles; clenshaw_is_fourier (what the recurrence actually computes: phi + sum c_k sin 2k phi plus a c6 sin 8 phi defect term - the intended identity is refuted by a kernel-checked counterexample; the defect is < 2^-54 with the generated coefficients), "
       "authalic_deriv_lower_bound (> 0.995) and authalic_strict_mono for both regenerated coefficient tables (exact rationals), lon_roundtrip / colat_roundtrip over any field, exact facts about the f64 constants (PI_OVER_180 x DEG_PER_RAD rounds to 1.0; offset exactly 93); the real functions are the generic twins of the Float model (rfl). "
-      "[not proved] |g(f phi) - phi| <= 1e-12 and agreement with the closed-form WGS84 authalic latitude to 1e-11 (verified-numerics enclosure out of reach offline): searched on a dense grid incl. endpoints and pi/2 - 10^-k (worst 2.2e-16 resp. 1.7e-15 rad), monotonicity on adjacent grid points, lon/lat <-> sphere incl. poles and lon in [-540, 540] (worst 2.5e-15 rad); bit-exact correspondence.",
+      "authalic_roundtrip [full over R]: for EVERY real latitude |g(f phi) - phi| <= 1.35e-13 and |f(g beta) - beta| <= 1.35e-13 (<= the property's 1e-12) for the two order-6 series with the exact rational values of the regenerated coefficient tables, Clenshaw defect included (addition formulas with explicit remainders reduce the composition to a polynomial in e^{2i phi} with 49 kernel-computed rational coefficients plus an explicit rational remainder bound). "
+      "[not proved] the f64 rounding of the recurrence, and agreement with the closed-form WGS84 authalic latitude to 1e-11 (needs an enclosure of log/asin of the ellipsoid constants; out of reach offline): searched on a dense grid incl. endpoints and pi/2 - 10^-k (worst 2.2e-16 resp. 1.7e-15 rad), monotonicity on adjacent grid points, lon/lat <-> sphere incl. poles and lon in [-540, 540] (worst 2.5e-15 rad); bit-exact correspondence.",
       "Lean 4 proof (real-analysis identities and derivative bound in Mathlib on exact rational coefficients) + bit-exact correspondence + dense-grid search with an independent closed form",
       "DESIGN.md section 6 C19")
